@@ -7,11 +7,18 @@
 //	cmds   := ((q tmo (t mode [arg])*)*)   command index = position; model id = 100+index
 //	          q    queue index (queues share ONE Servent; the core has one queue)
 //	          tmo  ResponseTimeout in ms, 0 = long (30 s, never expected to fire)
-//	          mode ok | fail | (auto tag err)   what the injected send function does:
+//	          mode ok | fail | (auto tag err) | (auto tag err fail)
+//	               what the injected send function does:
 //	               return nil / return an error / hand the target's reply to
 //	               ProcessResponse from inside the send call, then return nil
 //	               (tag+t odd: the send call also yields the processor once, so the
-//	               reply is usually looked up BEFORE the send call returns)
+//	               reply is usually looked up BEFORE the send call returns) /
+//	               "delivered and answered, but the send is reported as failed": hand the
+//	               reply to ProcessResponse from inside the send call, wait until that
+//	               ProcessResponse has looked the call up (goroutine dump: it is parked in
+//	               its hand-over `call.Done <- …`, or it returned), then return an ERROR —
+//	               the reply meets the caller in the window "no longer listening, entry
+//	               still pending" deterministically, without any clock
 //	          arg  optional, >= 1: the command's argument map binds this target to
 //	               {"k": "v<arg>"} (no arg: no binding for the target)
 //	script := (action*)               executed in order by ONE driver goroutine
@@ -58,6 +65,16 @@
 //	                           stop-the-world goroutine dump shows the consumer past c and c's
 //	                           listener parked in its receive with nothing received: a proof that
 //	                           the answer will never come, not a deadline
+//	(stuck c L S)              PROOF, read off two identical stop-the-world goroutine dumps, that
+//	                           command c will never complete although it was enqueued and its
+//	                           caller listens: every goroutine inside a method of the Servent is
+//	                           parked — L >= 1 of them (per-target callers spawned by the commit
+//	                           of c's queue among them) in sync.(*Mutex).Lock called from
+//	                           RunCommand, S in ProcessResponse's blocking send on call.Done,
+//	                           none in RunCommand's select, none running — so the servent mutex
+//	                           is held by a goroutine that can never release it (see stuck.go).
+//	                           The scenario ends there (every further command would hang too).
+//	                           Never derived from a deadline: a bare ceiling stays `inconclusive`
 //	final := ((c result)*)     every received result read AGAIN at the very end
 //	result := nil | (single entry) | (multi id ((t entry)*) (errs t*))
 //	entry  := (own id sender tag err) | (synth id send|timeout) | (other text)
@@ -150,7 +167,7 @@ func targetNo(t controlcommands.MesosCommandTarget) int {
 
 type tspec struct {
 	t    int
-	mode string // ok | fail | auto
+	mode string // ok | fail | auto | autofail (reply from inside the send call, then the send is reported as failed)
 	tag  int
 	err  bool
 	arg  int // >= 1: argMap[target] = {"k": "v<arg>"}; 0: no binding
@@ -192,7 +209,22 @@ type run struct {
 	consGid   map[int]int64 // queue -> id of the goroutine that called Start()
 	qorder    map[int][]int // queue -> sequentially enqueued commands, in order (guarded by mu)
 	notify    []chan controlcommands.MesosCommandResponse
+
+	// the servent found wedged (see stuck.go)
+	enq      []bool                  // Enqueue(c) has returned (guarded by mu)
+	isWedged bool                    // a (stuck c ..) has been recorded (guarded by mu)
+	prGid    map[chan struct{}]int64 // ProcessResponse call (by its `returned` channel) -> goroutine id (guarded by mu)
 }
+
+// errWedged: a command is PROVEN stuck for ever (stuck.go); the scenario ends with what was observed so far.
+var errWedged = errors.New("c12: servent wedged")
+
+func sxStuck(c, nLock, nSend int) *sx.Node {
+	return sx.L(sx.A("stuck"), sx.I(c), sx.I(nLock), sx.I(nSend))
+}
+
+// isFail: the send function returns an error for this target.
+func (ts *tspec) isFail() bool { return ts.mode == "fail" || ts.mode == "autofail" }
 
 // passedBy: the send function has been entered for a command enqueued behind c on c's queue.
 // Call with mu held.
@@ -283,6 +315,9 @@ func (r *run) awaitDone(c int) error {
 			r.mu.Unlock()
 			return nil
 		}
+		if r.wedged() {
+			return errWedged
+		}
 		if time.Since(t0) > limit {
 			trip()
 			return fmt.Errorf("inconclusive: command %d not completed within ceiling + its ResponseTimeout", c)
@@ -318,6 +353,9 @@ func (r *run) probe(c int) error {
 			}
 			r.mu.Unlock()
 			return nil
+		}
+		if time.Since(t0) > 100*time.Millisecond && pause >= 20*time.Millisecond && r.wedged() {
+			return errWedged
 		}
 		if time.Since(t0) > ceiling()+r.cmds[c].tmo {
 			trip()
@@ -396,6 +434,10 @@ func (r *run) issue(mid, c, t, tag int, isErr bool, id xid.ID) (chan struct{}, e
 	r.record(sx.L(sx.A("R"), sx.I(mid), sx.I(t), sx.I(tag), sx.B(isErr)))
 	r.mu.Unlock()
 	go func() {
+		gid := curGoid()
+		r.mu.Lock()
+		r.prGid[returned] = gid
+		r.mu.Unlock()
 		r.servent.ProcessResponse(res, target(t))
 		now := time.Now()
 		r.mu.Lock()
@@ -425,7 +467,7 @@ func (r *run) failKey(c, t int) bool {
 	}
 	for _, ts := range r.cmds[c].targets {
 		if ts.t == t {
-			return ts.mode == "fail"
+			return ts.isFail()
 		}
 	}
 	return false
@@ -437,6 +479,7 @@ func (r *run) settle(returned chan struct{}, c int) error {
 		done = r.doneCh[c]
 	}
 	t0 := time.Now()
+	var nextWedge time.Duration
 	for hold := c >= 0 && c < len(r.cmds) && r.late[c]; hold; {
 		// a reply taken by a caller that then timed out blocks in ProcessResponse for ever; its
 		// command normally completes (done) — unless nobody listens yet: then the end of its commit
@@ -454,14 +497,38 @@ func (r *run) settle(returned chan struct{}, c int) error {
 		r.mu.Lock()
 		hold = !r.listening[c]
 		r.mu.Unlock()
+		if d := time.Since(t0); d > 200*time.Millisecond && d > nextWedge {
+			nextWedge = 2 * d
+			if r.wedged() {
+				return errWedged
+			}
+		}
 		if time.Since(t0) > ceiling() {
 			break
 		}
 	}
+	tick := 100 * time.Millisecond
+	t1 := time.Now()
+	for waited := true; waited; {
+		select {
+		case <-returned:
+			return nil
+		case <-done:
+			return nil
+		case <-time.After(tick):
+		}
+		if r.wedged() {
+			return errWedged
+		}
+		if tick < time.Second {
+			tick *= 2
+		}
+		waited = time.Since(t1) <= ceiling()
+	}
 	select {
 	case <-returned:
 	case <-done:
-	case <-time.After(ceiling()):
+	default:
 		trip()
 		if os.Getenv("C12_DEBUG") != "" {
 			buf := make([]byte, 1<<22)
@@ -491,7 +558,7 @@ func (r *run) send(command controlcommands.MesosCommand, receiver controlcommand
 		r.mu.Unlock()
 		return nil
 	}
-	ok := spec.mode != "fail"
+	ok := !spec.isFail()
 	// what the send function is handed: RunCommand's `cmd`, i.e. what commit made
 	// of the command for this target (MakeSingleTarget)
 	d := command.GetResponseTimeout()
@@ -519,14 +586,26 @@ func (r *run) send(command controlcommands.MesosCommand, receiver controlcommand
 	r.record(ev)
 	ch := r.sendSeen[[2]int{c, t}]
 	r.mu.Unlock()
-	if spec.mode == "auto" {
+	if spec.mode == "auto" || spec.mode == "autofail" {
 		// issued BEFORE the driver is told that the send happened: a scripted reply on
 		// this key must queue up behind this one (it could otherwise be taken first and
 		// block on call.Done while this goroutine — the caller — waits for it).
-		if _, err := r.issue(mid, c, t, spec.tag, spec.err, command.GetId()); err != nil {
+		ret, err := r.issue(mid, c, t, spec.tag, spec.err, command.GetId())
+		if err != nil {
 			r.mu.Lock()
 			r.fail = err
 			r.mu.Unlock()
+		} else if spec.mode == "autofail" {
+			// "delivered and answered, but the send is reported as failed": the send call returns
+			// its error only when the reply's ProcessResponse has looked the call up — it is parked
+			// in the hand-over on call.Done (this goroutine, the caller, is not receiving and never
+			// will), or it has returned. The reply then meets a caller that has stopped listening
+			// while its entry is still pending. A goroutine dump, no clock.
+			if err := r.awaitLookup(ret); err != nil {
+				r.mu.Lock()
+				r.fail = err
+				r.mu.Unlock()
+			}
 		}
 		if (spec.tag+spec.t)%2 == 1 {
 			// let the goroutine that carries the reply run first: the class "the reply is
@@ -544,6 +623,35 @@ func (r *run) send(command controlcommands.MesosCommand, receiver controlcommand
 		return errors.New(sendErrText)
 	}
 	return nil
+}
+
+// awaitLookup: the ProcessResponse call identified by `returned` has returned, or is parked in
+// its blocking send on call.Done.
+func (r *run) awaitLookup(returned chan struct{}) error {
+	t0 := time.Now()
+	pause := 20 * time.Microsecond
+	for {
+		select {
+		case <-returned:
+			return nil
+		default:
+		}
+		r.mu.Lock()
+		gid := r.prGid[returned]
+		r.mu.Unlock()
+		if gid != 0 && parkedInHandover(allStacks(), gid) {
+			return nil
+		}
+		if time.Since(t0) > ceiling() {
+			trip()
+			return fmt.Errorf("inconclusive: a reply issued from inside the send call was not looked up within its ceiling")
+		}
+		runtime.Gosched()
+		time.Sleep(pause)
+		if pause < 200*time.Millisecond {
+			pause *= 2 // a lookup takes microseconds; one that has not happened after milliseconds waits for s.mu
+		}
+	}
 }
 
 // singleView reads off the command object handed to the send function everything
@@ -696,12 +804,21 @@ func parseInput(in *sx.Node) ([]cspec, []*sx.Node, error) {
 			}
 			m := tn.At(1)
 			if m.IsList {
+				if m.Len() != 3 && m.Len() != 4 {
+					return nil, nil, fmt.Errorf("bad mode")
+				}
 				ts.mode, ts.tag, ts.err = m.At(0).Str(), m.At(1).Int(), m.At(2).Bool()
+				if ts.mode != "auto" || (m.Len() == 4 && m.At(3).Str() != "fail") {
+					return nil, nil, fmt.Errorf("bad mode")
+				}
+				if m.Len() == 4 {
+					ts.mode = "autofail"
+				}
 			} else {
 				ts.mode = m.Str()
-			}
-			if ts.mode != "ok" && ts.mode != "fail" && ts.mode != "auto" {
-				return nil, nil, fmt.Errorf("bad mode %q", ts.mode)
+				if ts.mode != "ok" && ts.mode != "fail" {
+					return nil, nil, fmt.Errorf("bad mode %q", ts.mode)
+				}
 			}
 			cs.targets = append(cs.targets, ts)
 		}
@@ -731,7 +848,8 @@ func runImpl(input string) (obs string, err error) {
 		sendAt: map[[2]int]time.Time{}, sendDur: map[[2]int]time.Duration{},
 		lastKey: map[[2]int]chan struct{}{}, endCh: make(chan struct{}),
 		qOf: make([]int, len(cmds)), late: make([]bool, len(cmds)), listening: make([]bool, len(cmds)),
-		lisGid: make([]int64, len(cmds)), lost: make([]bool, len(cmds)), consGid: map[int]int64{}, qorder: map[int][]int{}}
+		lisGid: make([]int64, len(cmds)), lost: make([]bool, len(cmds)), consGid: map[int]int64{}, qorder: map[int][]int{},
+		enq: make([]bool, len(cmds)), prGid: map[chan struct{}]int64{}}
 	for _, a := range script {
 		if a.At(0).Str() == "L" {
 			if c := a.At(1).Int(); a.Len() == 2 && c >= 0 && c < len(cmds) && !r.late[c] {
@@ -792,7 +910,7 @@ func runImpl(input string) (obs string, err error) {
 			}
 		}
 	}
-	normal := false
+	normal, wedgedExit := false, false
 	defer func() {
 		// Stop() takes the queue mutex, which the worker holds while a commit is in
 		// progress and while it hands over a callback: never wait for it here. The
@@ -801,7 +919,8 @@ func runImpl(input string) (obs string, err error) {
 		for _, q := range queues {
 			go q.Stop()
 		}
-		if normal {
+		if normal || wedgedExit {
+			// (after a wedge nothing will ever arrive any more: the listeners may go)
 			close(r.endCh)
 		}
 		// a late-listener command whose listener was never started (aborted scenario): take its
@@ -866,140 +985,180 @@ func runImpl(input string) (obs string, err error) {
 
 	valid := func(c int) bool { return c >= 0 && c < len(cmds) }
 	enqueued := make([]bool, len(cmds))
-	for _, a := range script {
-		switch a.At(0).Str() {
-		case "E":
-			var cs []int
-			for _, n := range a.List[1:] {
-				if !valid(n.Int()) || enqueued[n.Int()] {
-					return "", fmt.Errorf("bad E")
+	exec := func() (string, error) {
+		for _, a := range script {
+			switch a.At(0).Str() {
+			case "E":
+				var cs []int
+				for _, n := range a.List[1:] {
+					if !valid(n.Int()) || enqueued[n.Int()] {
+						return "", fmt.Errorf("bad E")
+					}
+					enqueued[n.Int()] = true
+					cs = append(cs, n.Int())
 				}
-				enqueued[n.Int()] = true
-				cs = append(cs, n.Int())
-			}
-			if len(cs) == 1 {
+				if len(cs) == 1 {
+					r.mu.Lock()
+					r.qorder[cmds[cs[0]].q] = append(r.qorder[cmds[cs[0]].q], cs[0])
+					r.mu.Unlock()
+					if err := queues[cmds[cs[0]].q].Enqueue(r.real[cs[0]], notify[cs[0]]); err != nil {
+						return "", err
+					}
+					r.mu.Lock()
+					r.enq[cs[0]] = true
+					r.mu.Unlock()
+				} else {
+					for _, c := range cs {
+						if r.late[c] {
+							return "", fmt.Errorf("bad E: late-listener command in a concurrent group")
+						}
+					}
+					var wg sync.WaitGroup
+					errs := make([]error, len(cs))
+					for i, c := range cs {
+						wg.Add(1)
+						go func(i, c int) {
+							defer wg.Done()
+							errs[i] = queues[cmds[c].q].Enqueue(r.real[c], notify[c])
+						}(i, c)
+					}
+					wg.Wait()
+					for _, e := range errs {
+						if e != nil {
+							return "", e
+						}
+					}
+					r.mu.Lock()
+					for _, c := range cs {
+						r.enq[c] = true
+					}
+					r.mu.Unlock()
+				}
+			case "W":
+				ch := r.sendSeen[[2]int{a.At(1).Int(), a.At(2).Int()}]
+				if ch == nil {
+					return "", fmt.Errorf("bad W")
+				}
+				t0, tick := time.Now(), 100*time.Millisecond
+				for seen := false; !seen; {
+					select {
+					case <-ch:
+						seen = true
+						continue
+					case <-time.After(tick):
+					}
+					if r.wedged() {
+						return "", errWedged
+					}
+					if tick < time.Second {
+						tick *= 2
+					}
+					if time.Since(t0) > ceiling() {
+						trip()
+						return "", fmt.Errorf("inconclusive: send (%d,%d) not observed within its ceiling", a.At(1).Int(), a.At(2).Int())
+					}
+				}
+			case "R":
+				c := a.At(1).Int()
+				if !valid(c) {
+					return "", fmt.Errorf("bad R")
+				}
+				ret, err := r.issue(100+c, c, a.At(2).Int(), a.At(3).Int(), a.At(4).Bool(), r.real[c].Id)
+				if err != nil {
+					return "", err
+				}
+				if !r.failKey(c, a.At(2).Int()) {
+					if err := r.settle(ret, c); err != nil {
+						return "", err
+					}
+				}
+			case "F":
+				n := a.At(1).Int()
+				if n < 0 || n >= len(r.foreign) {
+					return "", fmt.Errorf("bad F")
+				}
+				ret, err := r.issue(900+n, -1, a.At(2).Int(), a.At(3).Int(), a.At(4).Bool(), r.foreign[n])
+				if err != nil {
+					return "", err
+				}
+				if err := r.settle(ret, -1); err != nil {
+					return "", err
+				}
+			case "D":
+				c := a.At(1).Int()
+				if !valid(c) || !enqueued[c] {
+					return "", fmt.Errorf("bad D")
+				}
 				r.mu.Lock()
-				r.qorder[cmds[cs[0]].q] = append(r.qorder[cmds[cs[0]].q], cs[0])
+				l := r.listening[c]
 				r.mu.Unlock()
-				if err := queues[cmds[cs[0]].q].Enqueue(r.real[cs[0]], notify[cs[0]]); err != nil {
+				if !l {
+					return "", fmt.Errorf("bad D: nobody listens to command %d", c)
+				}
+				if err := r.awaitDone(c); err != nil {
 					return "", err
 				}
-			} else {
-				for _, c := range cs {
-					if r.late[c] {
-						return "", fmt.Errorf("bad E: late-listener command in a concurrent group")
-					}
+			case "L":
+				c := a.At(1).Int()
+				r.mu.Lock()
+				l := r.listening[c]
+				if !l {
+					r.record(sx.L(sx.A("L"), sx.I(c)))
 				}
-				var wg sync.WaitGroup
-				errs := make([]error, len(cs))
-				for i, c := range cs {
-					wg.Add(1)
-					go func(i, c int) {
-						defer wg.Done()
-						errs[i] = queues[cmds[c].q].Enqueue(r.real[c], notify[c])
-					}(i, c)
+				r.mu.Unlock()
+				if l {
+					return "", fmt.Errorf("bad L")
 				}
-				wg.Wait()
-				for _, e := range errs {
-					if e != nil {
-						return "", e
-					}
+				listen(c)
+			case "B":
+				c := a.At(1).Int()
+				if a.Len() != 2 || !valid(c) || !enqueued[c] || !r.late[c] {
+					return "", fmt.Errorf("bad B")
 				}
-			}
-		case "W":
-			ch := r.sendSeen[[2]int{a.At(1).Int(), a.At(2).Int()}]
-			if ch == nil {
-				return "", fmt.Errorf("bad W")
-			}
-			select {
-			case <-ch:
-			case <-time.After(ceiling()):
-				trip()
-				return "", fmt.Errorf("inconclusive: send (%d,%d) not observed within its ceiling", a.At(1).Int(), a.At(2).Int())
-			}
-		case "R":
-			c := a.At(1).Int()
-			if !valid(c) {
-				return "", fmt.Errorf("bad R")
-			}
-			ret, err := r.issue(100+c, c, a.At(2).Int(), a.At(3).Int(), a.At(4).Bool(), r.real[c].Id)
-			if err != nil {
-				return "", err
-			}
-			if !r.failKey(c, a.At(2).Int()) {
-				if err := r.settle(ret, c); err != nil {
+				r.mu.Lock()
+				ok := !r.listening[c] && r.headOf(c)
+				r.mu.Unlock()
+				if !ok {
+					return "", fmt.Errorf("bad B: command %d is listened to already or not at the head of its queue", c)
+				}
+				if err := r.probe(c); err != nil {
 					return "", err
 				}
+			default:
+				return "", fmt.Errorf("bad action %q", a.At(0).Str())
 			}
-		case "F":
-			n := a.At(1).Int()
-			if n < 0 || n >= len(r.foreign) {
-				return "", fmt.Errorf("bad F")
-			}
-			ret, err := r.issue(900+n, -1, a.At(2).Int(), a.At(3).Int(), a.At(4).Bool(), r.foreign[n])
-			if err != nil {
-				return "", err
-			}
-			if err := r.settle(ret, -1); err != nil {
-				return "", err
-			}
-		case "D":
-			c := a.At(1).Int()
-			if !valid(c) || !enqueued[c] {
-				return "", fmt.Errorf("bad D")
-			}
-			r.mu.Lock()
-			l := r.listening[c]
-			r.mu.Unlock()
-			if !l {
-				return "", fmt.Errorf("bad D: nobody listens to command %d", c)
+		}
+		// everything enqueued must have completed before the final reading
+		for c := range cmds {
+			if !enqueued[c] {
+				continue
 			}
 			if err := r.awaitDone(c); err != nil {
 				return "", err
 			}
-		case "L":
-			c := a.At(1).Int()
-			r.mu.Lock()
-			l := r.listening[c]
-			if !l {
-				r.record(sx.L(sx.A("L"), sx.I(c)))
-			}
-			r.mu.Unlock()
-			if l {
-				return "", fmt.Errorf("bad L")
-			}
-			listen(c)
-		case "B":
-			c := a.At(1).Int()
-			if a.Len() != 2 || !valid(c) || !enqueued[c] || !r.late[c] {
-				return "", fmt.Errorf("bad B")
-			}
-			r.mu.Lock()
-			ok := !r.listening[c] && r.headOf(c)
-			r.mu.Unlock()
-			if !ok {
-				return "", fmt.Errorf("bad B: command %d is listened to already or not at the head of its queue", c)
-			}
-			if err := r.probe(c); err != nil {
-				return "", err
-			}
-		default:
-			return "", fmt.Errorf("bad action %q", a.At(0).Str())
 		}
+		return "", nil
 	}
-	// everything enqueued must have completed before the final reading
-	for c := range cmds {
-		if !enqueued[c] {
-			continue
-		}
-		if err := r.awaitDone(c); err != nil {
-			return "", err
-		}
+	_, err = exec()
+	r.mu.Lock()
+	if err == nil && r.fail == errWedged {
+		err = errWedged
 	}
-	normal = true
+	wedged := r.isWedged
+	r.mu.Unlock()
+	if err == errWedged && !wedged {
+		return "", fmt.Errorf("inconclusive: wedge reported without its proof")
+	}
+	if err != nil && err != errWedged {
+		return "", err
+	}
+	// A scenario that found the servent wedged ends here: the events up to the proof(s) and what
+	// was received so far are the observation (nothing can complete any more; the goroutines of
+	// this scenario stay parked for ever).
+	normal, wedgedExit = err == nil, err == errWedged
 	r.mu.Lock()
 	defer r.mu.Unlock()
-	if r.fail != nil {
+	if r.fail != nil && r.fail != errWedged {
 		return "", r.fail
 	}
 	r.closed = true
@@ -1060,7 +1219,10 @@ func init() {
 		Nontrivial: nontrivial,
 		Rule: "scripted scenarios on the real Servent+CommandQueue(s): 1..4 commands x 0..8 targets from a shared pool of 10, " +
 			"per-target behaviour in {reply, error reply, send failure, silence->timeout (ResponseTimeout 25..60 ms), reply from inside send " +
-			"(half of them with a yield so that the reply is processed before the send call returns)}, optional per-target arguments, " +
+			"(half of them with a yield so that the reply is processed before the send call returns), delivered-and-answered-but-the-send-reports-" +
+			"an-error (reply from inside send; the send call returns its error once a goroutine dump shows that reply's ProcessResponse parked in its " +
+			"hand-over or returned: the reply meets a caller that has stopped listening while its entry is still pending — class reply-in-leave-window)}, " +
+			"optional per-target arguments, " +
 			"plus duplicate / late / early / foreign-id / wrong-sender / other-command replies in scripted arrival orders, sequential or " +
 			"concurrent Enqueue, one queue (as the core) or two queues on one Servent; 1 scenario in 7 has LATE LISTENERS: 1..4 fast commands " +
 			"enqueued while nobody receives on their callback channel (also pipelined: all enqueued first), the consumer goroutine probed by " +
@@ -1068,7 +1230,8 @@ func init() {
 			"listeners started in any order (before the Enqueue, during the commit, while held, while queued behind a held command); " +
 			"the observed linearisation is replayed on the Lean " +
 			"model as a monitor (incl. the response timeout and arguments of the command object each send call is handed, and the returns " +
-			"of ProcessResponse) and Spec.C12 is evaluated on it; non-trivial = >=2 commands or >=2 targets, and >=1 reply that is not the " +
+			"of ProcessResponse) and Spec.C12 is evaluated on it; a command that never completes enters the observation as (stuck c ..) only with a " +
+			"goroutine-dump proof that the servent mutex is held by a goroutine that can never release it (else: ceiling => inconclusive); non-trivial = >=2 commands or >=2 targets, and >=1 reply that is not the " +
 			"first own reply of a pending call (dup/late/early/foreign/wrong) or >=1 timeout/send failure; distinct by input text",
 		Shrink:   shrinkCands,
 		Search:   search,
@@ -1079,12 +1242,14 @@ func init() {
 			"harness/props/c12 (scenario driver, event recorder under one mutex, result classifier by response object fields / error text)",
 			"Lean driver Driver/C12.lean (monitor replay: internal steps timeout/recv placed from the reported outcomes; the rendezvous of a callback placed no later than the next send of the same queue)",
 			"harness/props/c12/handover.go (reading of runtime.Stack: consumer goroutine of a queue recognised by the id of the goroutine that called Start(); `[chan send]` / `[chan receive]` with the closure of CommandQueue.Start as innermost non-runtime frame)",
+			"harness/props/c12/stuck.go (reading of runtime.Stack: the goroutines inside one scenario's Servent known by ancestry — created by (*CommandQueue).commit in a consumer goroutine of the scenario, or started by the harness for a ProcessResponse call; classes `sync.Mutex.Lock` under RunCommand/ProcessResponse, `chan send` in ProcessResponse, `select` in RunCommand, anything else = not at rest; two identical dumps)",
 		},
 		Assumptions: []string{
 			"distinct command ids (xid.New) and per-command distinct targets (Tasks.GetMesosCommandTargets)",
 			"the order in which the harness records events under its mutex is a linearisation of the calls it makes/receives; a reply is issued on a key only after the previous reply on that key returned or its command completed",
 			"wall-clock: 'within its response timeout' is observed (timing.json: max (send..callback)/ResponseTimeout), not verified; what IS checked without a clock: every target is waited for with the command's own ResponseTimeout (the value carried by the command object handed to the send function, which RunCommand arms its timer with)",
 			"Go channel semantics used as PROOF (never a deadline): a goroutine parked in a receive on a buffered channel means the channel is empty; after Enqueue(c) returned, a consumer parked in its receive on the queue channel has finished the loop body of c; an unbuffered callback channel whose only receiver is parked with nothing received has handed nothing over. A missing answer enters the observation only with such a proof (event `(B c idle|passed)`); a bare ceiling stays `inconclusive`",
+			"the servent mutex s.mu is private to Servent and used only inside RunCommand and ProcessResponse; the only receiver on a Call's Done channel is the RunCommand that owns the Call, in its select, and RunCommand locks s.mu after that select only to unregister and return: so when one stop-the-world dump shows every goroutine inside a scenario's Servent parked — at least one in s.mu.Lock(), the rest in ProcessResponse's send on call.Done, none in RunCommand's select — the mutex is held by a goroutine that can never release it; with the consumer of command c's queue inside commit and one of its per-target goroutines among those parked in Lock, c never completes (event `(stuck c L S)`, after which the scenario ends). Used as PROOF, never as a deadline",
 			"Go timers do not fire early on the monotonic clock: a ProcessResponse that returned less than the call's response timeout after the send function was entered was looked up before the caller's timeout branch could run (flag `early` of the P event)",
 		},
 	})
